@@ -587,13 +587,20 @@ def check_config(res, spec, ws, index=0, pre=None):
 
     # ------------------------------------------------------------ leg A: pixel -> sky -> pixel
     P2 = None
+    from mc import fingerprint as _FP
+    fpP = _FP.fp(P)
     S1 = _call(cx, 'leg A: to_sky', lambda: P.to_sky(w))
     res.transitions += 1
+    if _FP.fp(P) != fpP:
+        cx.bad('conversion_mutates_input', f'to_sky changed the {cls} pixel region it was called on')
     if S1 is not None:
         if cmp_class(cx, S1, spec, 'sky', 'leg A (pixel->sky)', ' S1'):
             cmp_meta(cx, S1, spec, 'leg A (pixel->sky) S1', final=False)
+        fpS1 = _FP.fp(S1)
         P2 = _call(cx, 'leg A: to_sky(...).to_pixel', lambda: S1.to_pixel(w))
         res.transitions += 1
+        if _FP.fp(S1) != fpS1:
+            cx.bad('conversion_mutates_input', f'to_pixel changed the {cls} sky region it was called on')
         if P2 is not None:
             if cmp_class(cx, P2, spec, 'pixel', 'leg A (pixel->sky->pixel)', ' P2'):
                 cmp_meta(cx, P2, spec, 'leg A (pixel->sky->pixel) P2', final=True)
